@@ -117,9 +117,7 @@ theorem asm_divMS_value : type_of% @divMS_value := @divMS_value
 /-- wrapper level (Go signature) for mulAdd10VWW -/
 theorem asm_mulAdd10VWW_wrapper : type_of% @asm_mulAdd10VWW_spec := @asm_mulAdd10VWW_spec
 
-/- PARTIAL (stated in notes/ASM_NOTES.md section 4, not proved): whole-routine theorems for
-   add10VW, sub10VW, shl10VU, shr10VU (with their decCpy/decCpyInv tails). Every block lemma they
-   need is proved in Proofs/AsmBlocks.lean; those routines are otherwise tied by execution:
-   CPU vs portable Go vs Lean-executed translated assembly vs the L0 model vs arithmetic. -/
+/- The whole-routine theorems for add10VW, sub10VW, shl10VU, shr10VU (with their decCpy/decCpyInv tails)
+   are in Properties/C07b.lean (Proofs/AsmLoops2, AsmLoopsAddVW, AsmLoopsSubVW, AsmLoopsShl, AsmLoopsShr, AsmWrappers2). -/
 
 end Decimal.C07
